@@ -13,6 +13,7 @@ use object::array::Array;
 use object::file::FileHandle;
 use object::func::CompiledFunction;
 use object::Object;
+use parser::ast::stmt::Statement;
 use parser::ast::Program;
 use parser::*;
 use repl::prompt;
@@ -91,6 +92,7 @@ pub fn run_prompt(args: Vec<String>) {
                     }
                 };
 
+                let ends_in_expr = matches!(program.statements.last(), Some(Statement::Expr(_)));
                 let mut compiler = Compiler::new_with_state(symtab, constants);
                 if let Err(e) = compiler.compile(program) {
                     eprintln!("{}", e);
@@ -112,7 +114,7 @@ pub fn run_prompt(args: Vec<String>) {
                 // Get the object at the top of the VM's stack
                 let stack_elem = vm.last_popped();
                 // print last popped element if it is not null
-                if !matches!(stack_elem.as_ref(), Object::Null) {
+                if ends_in_expr && !matches!(stack_elem.as_ref(), Object::Null) {
                     println!("{}", stack_elem);
                 }
                 globals = vm.globals;
@@ -156,6 +158,9 @@ pub fn run_buf(buf: String, args: Vec<String>, cmd_mode: bool, skip_pcap: bool) 
         None => return,
     };
 
+    // Only the value of a final expression statement is echoed in command mode
+    let ends_in_expr = matches!(program.statements.last(), Some(Statement::Expr(_)));
+
     let mut compiler = Compiler::new();
     if let Err(e) = compiler.compile(program) {
         eprintln!("{}", e);
@@ -171,11 +176,14 @@ pub fn run_buf(buf: String, args: Vec<String>, cmd_mode: bool, skip_pcap: bool) 
     let mut vm = VM::new_with_global_store(bytecode, globals);
     init_builtin_vars(&vm, args);
     let err = vm.run();
+    let failed = err.is_err();
     if let Err(err) = err {
         eprintln!("{}", err);
     }
 
-    if cmd_mode && !filter_mode {
+    // After a runtime error, or when the program does not end in an
+    // expression statement, the last popped slot holds a stale value
+    if cmd_mode && !filter_mode && !failed && ends_in_expr {
         // Get the object at the top of the VM's stack
         let stack_elem = vm.last_popped();
         // print last popped element if it is not null
